@@ -28,7 +28,7 @@ def program(r, non_ascii=False, max_records=5):
 
     targets = ["D"]
     for i in range(r.randint(0, 2)):
-        ops.append(["bundle", "B%d" % i, name(["b%d" % i])])
+        ops.append(["bundle", "B%d" % i, name(["b%d" % i, "bundle/%d" % i, "b~%d" % i])])
         targets.append("B%d" % i)
     mode = {}
     n = [0]
@@ -74,7 +74,7 @@ def program(r, non_ascii=False, max_records=5):
                             args[f] = val_dt(r, as_=r.choice(["dt", "iso"]))
                 ops.append(["rec", t, kind, name(["el%d" % n[0]]), args, extras(False), "new_record", label])
                 continue
-            subj, obj = name(["s1", "s2", "s3"]), name(["o1", "o2"])
+            subj, obj = name(["s1", "s2", "s3", "s/4"]), name(["o1", "o2", "o.3", "9o"])
             key = (t, kind, subj["s"])
             if kind in BARE_ONLY:
                 ident = False
